@@ -154,7 +154,13 @@ class Engine:
                             outs.append((sb, tr.switch(s, b.cond, [], True, allv, ctx)))
                 else:
                     outs = [(sb, s) for sb in succs]
+                flat = []
                 for sb, ns in outs:
+                    if isinstance(ns, list):
+                        flat.extend((sb, x) for x in ns)
+                    else:
+                        flat.append((sb, ns))
+                for sb, ns in flat:
                     if sb is None or ns is None:
                         continue
                     if sb == cfg.exit:
